@@ -20,6 +20,16 @@ def shipped_rewirings(ctx, rng, n):
             bases.append((os.path.basename(f), json.load(open(f))))
         except Exception:
             pass
+    # ... and a small document importing each shipped schema (so that every kind of imported entity, thread groups and
+    # pipelines included, can be wired into native positions)
+    from corr import interp as _interp
+    for f in files:
+        rel = os.path.relpath(f, os.path.join(ctx.repo_copy, "schemas"))[:-5]
+        d0 = _interp.importing_doc(rel)
+        d0["actions"][0]["context"] = "thread_group:0"          # positions that exist only when present
+        d0["object_promises"][0]["context"] = "thread_group:0"
+        d0["checkpoints"][0]["context"] = "thread_group:0"
+        bases.append(("imports:" + rel, d0))
     kinds = {"party": ("parties", "name"), "object_type": ("object_types", "name"), "object_promise": ("object_promises", "name"),
              "action": ("actions", "name"), "checkpoint": ("checkpoints", "alias"), "thread_group": ("thread_groups", "name")}
     def strings(x, p=()):
@@ -46,11 +56,34 @@ def shipped_rewirings(ctx, rng, n):
             # qualified by a schema that is not loaded (no such file / a file nobody imports)
             targets.append("schema:{no_such_import}.%s:0" % kind)
             targets.append("schema:{test/small_example_schema}.%s:0" % kind)
+        # entities of the files the document imports, under their schema qualifier (any kind at any position: e.g. an
+        # action of the document whose context is a thread group of an imported schema)
+        for imp in base.get("imports") or []:
+            fn = imp.get("file_name") if isinstance(imp, dict) else None
+            path = os.path.join(ctx.repo_copy, "schemas", "%s.json" % fn) if isinstance(fn, str) else None
+            if not path or not os.path.exists(path):
+                continue
+            try:
+                idoc = json.load(open(path))
+            except Exception:
+                continue
+            for kind, (coll, af) in kinds.items():
+                for it in (idoc.get(coll) or [])[-2:]:
+                    if isinstance(it, dict) and "id" in it:
+                        targets.append("schema:{%s}.%s:%s" % (fn, kind, it["id"]))
+                        if af in it:
+                            targets.append("schema:{%s}.%s:{%s}" % (fn, kind, it[af]))
         for p, sv in strings(base):
             m = refpat.match(sv)
             if m and not m.group(1):
                 cands.append((name, base, p, sv, targets, m.group(4)))
     rng.shuffle(cands)
+    # documents with imports first (few shipped documents have any), then the rest
+    cands.sort(key=lambda c: 0 if c[1].get("imports") else 1)
+    head = [c for c in cands if c[1].get("imports")][:n // 3]
+    rest = [c for c in cands if c not in head]
+    rng.shuffle(rest)
+    cands = head + rest
     for name, base, p, sv, targets, path in cands[:n]:
         t = rng.choice(targets)
         d = copy.deepcopy(base)
